@@ -119,6 +119,12 @@ func (w *World) isArrayOfRefStruct(t types.Type) (*types.Array, bool) {
 func (ex *Exec) fieldVal(st *State, ref *Term, owner *types.Named, f *types.Var) *Val {
 	if ex.w.isRefStruct(f.Type()) {
 		r := subRefTerm(ref, owner, f)
+		if st != nil {
+			ex.assume(st, tImp(tNot(tEq(ref, intLit(0))), tNot(tEq(r, intLit(0)))))
+			if ex.allocates {
+				ex.assume(st, tImp(ex.isAlloc(st, ref), ex.isAlloc(st, r)))
+			}
+		}
 		return tv(r, f.Type())
 	}
 	if _, ok := ex.w.isArrayOfRefStruct(f.Type()); ok {
@@ -129,6 +135,9 @@ func (ex *Exec) fieldVal(st *State, ref *Term, owner *types.Named, f *types.Var)
 		ex.assume(st, ex.readFacts(v))
 		if isIntType(f.Type()) {
 			ex.assume(st, ex.intRange(v.T, f.Type()))
+		}
+		if v.T.S.IsSlice {
+			ex.assume(st, tAnd(mk("<=", SBool, intLit(0), tField(v.T, "len")), mk("<=", SBool, intLit(0), tField(v.T, "off"))))
 		}
 		if ex.allocates && v.T.S.Eq(SRef) && !isIntType(f.Type()) {
 			ex.assume(st, tOr(tEq(v.T, intLit(0)), ex.isAlloc(st, v.T)))
@@ -197,6 +206,7 @@ func (ex *Exec) zeroInit(st *State, r *Term, named *types.Named) {
 		if ex.w.isRefStruct(f.Type()) {
 			sr := subRefTerm(r, named, f)
 			ex.subRefFacts(st, sr, r)
+			ex.assume(st, tEq(dynType(sr), ex.w.typeTag(types.NewPointer(f.Type()))))
 			ex.zeroInit(st, sr, namedOf(f.Type()))
 			continue
 		}
@@ -230,6 +240,9 @@ func (ex *Exec) zeroInit(st *State, r *Term, named *types.Named) {
 func (ex *Exec) subRefFacts(st *State, sr, parent *Term) {
 	ex.assume(st, tNot(tEq(sr, intLit(0))))
 	ex.assume(st, tNot(tEq(mk("objkind", SInt, sr), intLit(0))))
+	ex.assume(st, tNot(ex.isAlloc(st, sr)))
+	al := tStore(ex.allocTerm(st), sr, tTrue)
+	st.ghost["H:$alloc"] = tv(ex.define("alloc", al), nil)
 }
 
 // ---------------------------------------------------------------- lvalues
@@ -323,8 +336,16 @@ func (ex *Exec) storeHeap(st *State, lhs ast.Expr, v *Val) bool {
 					ex.setField(st, base.ref, base.owner, base.field, tv(tStore(cur.T, idx.T, coerceTo(nv, cur.T.S.Elem)), ft), where)
 					return true
 				}
-				if _, isSlice := ft.Underlying().(*types.Slice); isSlice {
-					panic(unsupported("store into a slice held in the heap at " + where))
+				if sl, isSlice := ft.Underlying().(*types.Slice); isSlice {
+					// element store through a slice held in a field: the slice's backing array is updated in place
+					// (no other alias of that array is modelled: A-GO; destinations are fresh per govframe)
+					cur := ex.fieldVal(st, base.ref, base.owner, base.field)
+					ex.boundsCheck(st, idx.T, ex.sliceLen(cur.T), where)
+					arr := tField(cur.T, "arr")
+					nv := ex.convertTo(st, v, sl.Elem())
+					narr := tStore(arr, mk("+", SInt, tField(cur.T, "off"), idx.T), coerceTo(nv, arr.S.Elem))
+					ex.setField(st, base.ref, base.owner, base.field, tv(tMkDT(cur.T.S, narr, tField(cur.T, "off"), tField(cur.T, "len")), ft), where)
+					return true
 				}
 			}
 		}
